@@ -88,3 +88,109 @@ pub fn worker_emit(v: &serde_json::Value) {
     let out = std::env::var("VERIF_WORKER_OUT").expect("VERIF_WORKER_OUT");
     std::fs::write(&out, serde_json::to_string(v).unwrap()).expect("write worker result");
 }
+
+// ---------------------------------------------------------------------------------------------
+// Chunked, abort-tolerant work distribution. Items are global indices 0..total. A child handles
+// `VERIF_RANGE=a..b` minus `VERIF_SKIP`, writes the index it is about to process to
+// `<out>.progress`, and emits one JSON result. If a child dies (e.g. the engine aborts on an
+// allocation failure), the index it was processing is recorded as `aborted` and the chunk is
+// re-run without it.
+// ---------------------------------------------------------------------------------------------
+
+pub fn range_from_env() -> Option<(usize, usize, Vec<usize>)> {
+    let r = std::env::var("VERIF_RANGE").ok()?;
+    let (a, b) = r.split_once("..")?;
+    let skip = std::env::var("VERIF_SKIP")
+        .unwrap_or_default()
+        .split(',')
+        .filter_map(|s| s.parse().ok())
+        .collect();
+    Some((a.parse().ok()?, b.parse().ok()?, skip))
+}
+
+pub fn progress(idx: usize) {
+    if let Ok(out) = std::env::var("VERIF_WORKER_OUT") {
+        let _ = std::fs::write(format!("{out}.progress"), idx.to_string());
+    }
+}
+
+pub fn run_chunked(total: usize, chunk: usize) -> (Vec<serde_json::Value>, Vec<usize>) {
+    let exe = std::env::current_exe().expect("current_exe");
+    let args: Vec<String> = std::env::args().skip(1).collect();
+    let dir = format!("/dev/shm/kyverif.chunks.{}", std::process::id());
+    let _ = std::fs::create_dir_all(&dir);
+    let mut queue: std::collections::VecDeque<(usize, usize, Vec<usize>)> = std::collections::VecDeque::new();
+    let mut a = 0;
+    while a < total {
+        let b = (a + chunk).min(total);
+        queue.push_back((a, b, Vec::new()));
+        a = b;
+    }
+    let maxj = jobs();
+    let mut running: Vec<(std::process::Child, String, (usize, usize, Vec<usize>))> = Vec::new();
+    let mut results = Vec::new();
+    let mut aborted = Vec::new();
+    let mut serial = 0usize;
+    loop {
+        while running.len() < maxj {
+            let Some(job) = queue.pop_front() else { break };
+            serial += 1;
+            let out = format!("{dir}/c{serial}.json");
+            let mut c = std::process::Command::new(&exe);
+            c.args(&args)
+                .env("VERIF_RANGE", format!("{}..{}", job.0, job.1))
+                .env("VERIF_SKIP", job.2.iter().map(|x| x.to_string()).collect::<Vec<_>>().join(","))
+                .env("VERIF_WORKER_OUT", &out)
+                .env("RAYON_NUM_THREADS", "1")
+                .stderr(std::process::Stdio::null());
+            running.push((c.spawn().expect("spawn chunk worker"), out, job));
+        }
+        if running.is_empty() {
+            break;
+        }
+        // wait for any child
+        let mut done_idx = None;
+        for (i, (child, _, _)) in running.iter_mut().enumerate() {
+            if let Ok(Some(_)) = child.try_wait() {
+                done_idx = Some(i);
+                break;
+            }
+        }
+        let Some(i) = done_idx else {
+            std::thread::sleep(std::time::Duration::from_millis(5));
+            continue;
+        };
+        let (mut child, out, job) = running.swap_remove(i);
+        let st = child.wait().expect("wait");
+        if st.success() {
+            match std::fs::read_to_string(&out).ok().and_then(|s| serde_json::from_str(&s).ok()) {
+                Some(v) => results.push(v),
+                None => {
+                    eprintln!("chunk {}..{} produced no result (machinery error)", job.0, job.1);
+                    std::process::exit(2);
+                }
+            }
+        } else {
+            let k: Option<usize> = std::fs::read_to_string(format!("{out}.progress")).ok().and_then(|s| s.trim().parse().ok());
+            match k {
+                Some(k) if k >= job.0 && k < job.1 && !job.2.contains(&k) => {
+                    aborted.push(k);
+                    let mut skip = job.2.clone();
+                    skip.push(k);
+                    if skip.len() > 400 {
+                        eprintln!("chunk {}..{}: too many aborts (machinery error)", job.0, job.1);
+                        std::process::exit(2);
+                    }
+                    queue.push_back((job.0, job.1, skip));
+                }
+                _ => {
+                    eprintln!("chunk {}..{} died with {st:?} without usable progress (machinery error)", job.0, job.1);
+                    std::process::exit(2);
+                }
+            }
+        }
+    }
+    let _ = std::fs::remove_dir_all(&dir);
+    aborted.sort_unstable();
+    (results, aborted)
+}
